@@ -766,6 +766,11 @@ func (c *compiler) checkVarConflict(name unistring.String, offset int) {
 		if sc.isFunction() {
 			break
 		}
+		if sc.variable && sc.outer != nil && sc.outer.isFunction() {
+			// the separate variable scope of a function with a non-simple parameter list: the scope above holds the
+			// parameters (including those bound by patterns), which a var may redeclare
+			break
+		}
 	}
 }
 
